@@ -499,10 +499,19 @@ func (rc *runCtx) writeEvidence(evPath string, seed int, t0 time.Time) {
 	cov["solver"] = map[string]interface{}{"kind": rc.solver, "queries": queries, "solver_s": solverS, "query_timeout_ms": rc.timeoutMs}
 	cov["load_s"] = rc.loadS
 	cov["explanation"] = "states = symbolic paths explored to completion or termination; transitions = solver-decided symbolic branch decisions; every obligation is an SMT query PC && !assertion answered unsat"
+	if rc.outside == nil {
+		rc.outside = []string{}
+	}
 	cov["outside_claim"] = rc.outside
 	cov["known_findings_reported"] = rc.knownLines
 	cov["exhaustive"] = rc.exit == 0
 	ev["coverage"] = cov
+	if rc.assumes == nil {
+		rc.assumes = []string{}
+	}
+	if rc.outside == nil {
+		rc.outside = []string{}
+	}
 	ev["assumptions"] = rc.assumes
 	eb, _ := json.MarshalIndent(ev, "", " ")
 	os.MkdirAll(filepath.Dir(evPath), 0755)
